@@ -702,3 +702,18 @@ REG.register(PySet, ["elems"], build=lambda elems=(): set(x for x in (elems or [
 def set_elems(t):
     """enumeration (VL) of a set value"""
     return vl(nth(fs_of(t), 0))
+
+
+def elem_shape_of(ctx, xs):
+    """predicate (term -> BoolRef) known to hold for every element of the list term xs, from the shape assumptions made for it;
+    for a concatenation a ++ b: the disjunction of what is known for a and for b.  None if nothing is known."""
+    table = ctx.__dict__.get("elem_shapes", {})
+    xs = z3.simplify(xs)
+    ent = table.get(xs.get_id())
+    if ent is not None:
+        return ent
+    if z3.is_app(xs) and xs.decl().name() == "vl_concat":
+        a, b = elem_shape_of(ctx, xs.arg(0)), elem_shape_of(ctx, xs.arg(1))
+        if a is not None and b is not None:
+            return lambda v: z3.Or(z3.And(vl_contains(xs.arg(0), v), a(v)), z3.And(vl_contains(xs.arg(1), v), b(v)))
+    return None
